@@ -13,13 +13,15 @@ Printer: `Lossy.showRelation(s)`; readers: `Lossy.readRelation(s)` and the lossl
 accessors; conversions: `Build.toLossless` (`From<lossy::Relation> for lossless::Relation`, through
 `RelationBuilder`) and `Build.toLossy` (`From<lossless::Relation> for lossy::Relation`).
 
-The two text clauses are full statements (they go through the canonical-layout field of
-Spec/RelCanon and C10). The two conversion clauses are false of the code as it exists:
-
-* F-C14-1 `trigNoArchs`      — `architectures: None`: `RelationBuilder::build` calls
-  `set_architectures` unconditionally, the lossless form prints ` []` and converts back to `Some([])`;
-* F-C14-2 `trigManyProfiles` — two or more profile groups: the second `add_profile` splices a tree
-  created with `SyntaxNode::new_root` (immutable) and panics.
+All clauses are full statements. The text clauses go through the canonical-layout field of
+Spec/RelCanon and C10; the conversion clauses rest on `toLossless_canon`: since fixes a67c3a1 /
+6949717 `RelationBuilder::build` produces exactly the tree the parser produces for the printed text.
+The two former departures (F-C14-1 ` []` appended for `architectures: None`; F-C14-2 panic for two or
+more profile groups) are fixed; their witnesses are the regression theorems `C14_fixed_*`.
+The text clauses hold on `ValidR` / `ValidRs`, which accept an EMPTY architecture list (`Some(vec![])`
+prints ` []` and reads back). The conversion clauses need the strong variant `ValidRS`: the lossless
+setters treat an empty list as "no list", so `Some([])` converts to `a` and back to `None`
+(`C14_convert_needs_nonempty_archs`).
 -/
 namespace Deb822Verif.Props.C14
 open Deb822Verif Rel Node RelSpec Lossy Build
@@ -65,62 +67,39 @@ theorem C14_lossless_reads_same (rs : List (List Lossy.Relation)) (h : ValidRs r
 
 /-! ### conversion lossy → lossless → lossy -/
 
-/-
-  Full statements (false of the code as it exists — findings F-C14-1, F-C14-2):
+/-- the builder produces the tree the parser produces for the printed text -/
+theorem C14_convert_tree (r : Lossy.Relation) (h : ValidRS r) : toLossless r = (canonRel r).node [] :=
+  toLossless_canon r h
 
-    theorem C14_convert_text (r : Lossy.Relation) (h : ValidR r) :
-        ∃ hd, toLossless r = .ok hd ∧ hd.tree.text = Lossy.showRelation r
-    theorem C14_convert_back (r : Lossy.Relation) (h : ValidR r) :
-        (toLossless r).bind (fun hd => toLossy hd.tree) = .ok r
--/
-/-- the lossless form prints the same text as the lossy one — when the architecture list is present
-    (F-C14-1) and there is at most one profile group (F-C14-2). Needs no validity of the strings. -/
-theorem C14_convert_text_partial (r : Lossy.Relation) (ha : trigNoArchs r = false)
-    (hp : trigManyProfiles r = false) :
-    ∃ hd, toLossless r = .ok hd ∧ hd.tree.text = Lossy.showRelation r := by
-  obtain ⟨as, has⟩ : ∃ as, r.architectures = some as := by
-    cases h : r.architectures with
-    | none => simp [trigNoArchs, h] at ha
-    | some as => exact ⟨as, rfl⟩
-  have hlen : r.profiles.length ≤ 1 := by simp [trigManyProfiles] at hp; omega
-  exact ⟨_, toLossless_ok r as has hlen, built_text r as has hlen⟩
+/-- the lossless form prints the same text as the lossy one -/
+theorem C14_convert_text (r : Lossy.Relation) (h : ValidRS r) :
+    (toLossless r).text = Lossy.showRelation r := toLossless_text r h
 
-/-- converting to the lossless form and back returns the original value — same exclusions -/
-theorem C14_convert_back_partial (r : Lossy.Relation) (h : ValidR r) (ha : trigNoArchs r = false)
-    (hp : trigManyProfiles r = false) :
-    (toLossless r).bind (fun hd => toLossy hd.tree) = .ok r := by
-  obtain ⟨as, has⟩ : ∃ as, r.architectures = some as := by
-    cases h' : r.architectures with
-    | none => simp [trigNoArchs, h'] at ha
-    | some as => exact ⟨as, rfl⟩
-  have hlen : r.profiles.length ≤ 1 := by simp [trigManyProfiles] at hp; omega
-  rw [toLossless_ok r as has hlen]
-  exact built_back r as has hlen h
+/-- converting to the lossless form and back returns the original value -/
+theorem C14_convert_back (r : Lossy.Relation) (h : ValidRS r) : toLossy (toLossless r) = .ok r :=
+  toLossless_back r h
 
 /-- `From<Vec<lossy::Relation>> for Entry` and back: the entry prints the alternatives separated by
-    ` | ` and converts back to the same relations — every relation outside the two trigger regions -/
-theorem C14_entry_convert_partial (e : List Lossy.Relation) (hv : ∀ r ∈ e, ValidR r)
-    (hc : ∀ r ∈ e, trigNoArchs r = false ∧ trigManyProfiles r = false) :
-    ∃ hd, entryFromLossy e = .ok hd
-      ∧ hd.tree.text = Text.join [' ', '|', ' '] (e.map Lossy.showRelation)
-      ∧ entryToLossy hd.tree = .ok e :=
-  ⟨_, entryFromLossy_ok e hc, entry_text e hc, entry_back e hc hv⟩
+    ` | ` and converts back to the same relations -/
+theorem C14_entry_convert (e : List Lossy.Relation) (hv : ∀ r ∈ e, ValidRS r) :
+    (entryFromLossy e).text = Text.join [' ', '|', ' '] (e.map Lossy.showRelation)
+      ∧ entryToLossy (entryFromLossy e) = .ok e :=
+  ⟨entry_text e hv, entry_back e hv⟩
 
 /-- `a` -/
 def exNoArchs : Lossy.Relation := ⟨['a'], none, none, none, []⟩
-/-- `a [] <x> <y>` -/
-def exTwoGroups : Lossy.Relation := ⟨['a'], none, some [], none, [[.Enabled ['x']], [.Enabled ['y']]]⟩
+/-- `a [b] <x> <y>` -/
+def exTwoGroups : Lossy.Relation := ⟨['a'], none, some [['b']], none, [[.Enabled ['x']], [.Enabled ['y']]]⟩
 
-/-- witness (F-C14-1): the lossless form of the valid value `a` prints `a []` and converts back to a
-    different value -/
-theorem C14_convert_witness_noarchs :
-    ValidR exNoArchs ∧ Lossy.showRelation exNoArchs = ['a']
-      ∧ (match toLossless exNoArchs with | .ok hd => hd.tree.text == "a []".toList | .panic _ => false) = true
-      ∧ (toLossless exNoArchs).bind (fun hd => toLossy hd.tree) ≠ .ok exNoArchs := by decide +kernel
+/-- F-C14-1 (fixed): the lossless form of `a` prints `a` and converts back to the same value -/
+theorem C14_fixed_noarchs :
+    ValidRS exNoArchs ∧ (toLossless exNoArchs).text = ['a'] ∧ toLossy (toLossless exNoArchs) = .ok exNoArchs := by
+  decide +kernel
 
-/-- witness (F-C14-2): converting a valid value with two profile groups panics -/
-theorem C14_convert_witness_two_groups :
-    ValidR exTwoGroups ∧ (toLossless exTwoGroups).isOk = false := by decide +kernel
+/-- F-C14-2 (fixed): a value with two profile groups converts, prints `a [b] <x> <y>` and converts back -/
+theorem C14_fixed_two_groups :
+    ValidRS exTwoGroups ∧ (toLossless exTwoGroups).text = "a [b] <x> <y>".toList
+      ∧ toLossy (toLossless exTwoGroups) = .ok exTwoGroups := by decide +kernel
 
 /-! ### what `ValidR` / `ValidRs` are needed for -/
 
@@ -141,25 +120,34 @@ theorem C14_roundtrip_needs_valid_version :
       ∧ Lossy.readRelation (Lossy.showRelation ⟨['a'], none, none, some (.Equal, ⟨none, "1-2".toList, none⟩), []⟩)
         = .ok ⟨['a'], none, none, some (.Equal, ⟨none, ['1'], some ['2']⟩), []⟩ := by decide +kernel
 
+/-- an empty architecture list is valid for the text round trip (it prints ` []` and reads back),
+    but not for the conversion (`ValidRS`): it converts to `a` / back to `None` -/
+theorem C14_convert_needs_nonempty_archs :
+    ValidR ⟨['a'], none, some [], none, []⟩ ∧ ¬ ValidRS ⟨['a'], none, some [], none, []⟩
+      ∧ Lossy.readRelation (Lossy.showRelation ⟨['a'], none, some [], none, []⟩) = .ok ⟨['a'], none, some [], none, []⟩
+      ∧ Lossy.showRelation ⟨['a'], none, some [], none, []⟩ = "a []".toList
+      ∧ (toLossless ⟨['a'], none, some [], none, []⟩).text = ['a']
+      ∧ toLossy (toLossless ⟨['a'], none, some [], none, []⟩) = .ok ⟨['a'], none, none, none, []⟩ := by
+  decide +kernel
+
 /-- an entry without alternatives disappears -/
 theorem C14_roundtrip_needs_nonempty_entries :
     Lossy.readRelations (Lossy.showRelations [[], [exNoArchs]]) = .ok [[exNoArchs]] := by decide +kernel
 
 /-! ### non-vacuity -/
 
-/-- `libc6:any (>= 1:2.3~rc1-4) [amd64 !i386] <!nocheck cross> | g++ [], x (<< 0) [] <a>` -/
+/-- `libc6:any (>= 1:2.3~rc1-4) [amd64 !i386] <!nocheck cross> | g++, x (<< 0) <a> <!b>` -/
 def exRs : List (List Lossy.Relation) :=
   [[⟨"libc6".toList, some "any".toList, some ["amd64".toList, "!i386".toList],
       some (.GreaterThanEqual, ⟨some 1, "2.3~rc1".toList, some ['4']⟩),
       [[.Disabled "nocheck".toList, .Enabled "cross".toList]]⟩,
-    ⟨"g++".toList, none, some [], none, []⟩],
-   [⟨['x'], none, some [], some (.LessThan, ⟨none, ['0'], none⟩), [[.Enabled ['a']]]⟩]]
+    ⟨"g++".toList, none, none, none, []⟩],
+   [⟨['x'], none, none, some (.LessThan, ⟨none, ['0'], none⟩), [[.Enabled ['a']], [.Disabled ['b']]]⟩]]
 
 example : ValidRs exRs := by decide +kernel
 example : Lossy.showRelations exRs =
-    "libc6:any (>= 1:2.3~rc1-4) [amd64 !i386] <!nocheck cross> | g++ [], x (<< 0) [] <a>".toList := by
+    "libc6:any (>= 1:2.3~rc1-4) [amd64 !i386] <!nocheck cross> | g++, x (<< 0) <a> <!b>".toList := by
   decide +kernel
-example : ∀ e ∈ exRs, ∀ r ∈ e, ValidR r ∧ trigNoArchs r = false ∧ trigManyProfiles r = false := by
-  decide +kernel
+example : ∀ e ∈ exRs, ∀ r ∈ e, ValidRS r := by decide +kernel
 
 end Deb822Verif.Props.C14
